@@ -149,6 +149,17 @@ class SymCtx(CtxBase):
             return core.sym_list_get(list(lst), i)
         return lst[i]
 
+    def alternatives(self, x):
+        """[(cond, object)] for a merged lookup result; no forking"""
+        if type(x) is SymChoice:
+            return [(core.mkbool(c), o) for c, o in x.alts()]
+        return [(True, x)]
+
+    def table_get(self, d, k):
+        if type(k) is SymInt:
+            return core.sym_dict_get(d, k)
+        return d[k]
+
     def use_zlib_model(self, pairs):
         from . import sx_zlib
         sx_zlib.reset()
